@@ -650,8 +650,9 @@ Qed.
 
 Lemma m_op_slash : forall x, m_op (47 :: x) = match x with b :: _ => if 61 =? b then 2%nat else 1%nat | [] => 1%nat end.
 Proof.
-  intros x. unfold m_op, ops. destruct x as [|b x]; cbn; [reflexivity|].
-  destruct (61 =? b); reflexivity.
+  intros x. unfold m_op, ops. destruct x as [|b x]; [reflexivity|].
+  destruct b as [|q|q]; cbn; try reflexivity.
+  destruct (61 =? q)%positive; reflexivity.
 Qed.
 
 Lemma is_prefix_short_false : forall o m, (length m < length o)%nat -> is_prefix o m = false.
@@ -699,7 +700,7 @@ Theorem token_boundary_all_kinds : forall m r r' k,
   step (m ++ r') = (Tok k, length m).
 Proof.
   intros m r r' k Hne Hk H Hf.
-  assert (Hkc : k <> K_COMMENT) by (destruct Hk as [->|[->|[->|[->|->]]]]; discriminate).
+  assert (Hkc : k <> K_COMMENT) by (destruct Hk as [-> | [-> | [-> | [-> | ->]]]]; discriminate).
   destruct (step_inv _ _ _ H Hkc) as [Hw [Hl [Hb Hc]]].
   pose proof (trivia_follows_start _ _ Hf) as Hs.
   assert (Fn : num_follow r').
@@ -834,9 +835,9 @@ Lemma all_kinds_example :
   trivia_follows [49; 46; 53; 101; 45; 51] [47; 42; 42; 47; 43; 49] /\
   step ([49; 46; 53; 101; 45; 51] ++ [47; 42; 42; 47; 43; 49]) = (Tok K_NUMBER, 6%nat) /\
   ~ trivia_follows [47] [47; 42; 42; 47; 49] /\
-  step ([47] ++ [47; 42; 42; 47; 49]) = (Tok K_COMMENT, 2%nat).
+  step ([47] ++ [47; 42; 42; 47; 49]) = (Tok K_COMMENT, 6%nat).
 Proof.
-  vm_compute. repeat split; try reflexivity.
+  repeat match goal with |- _ /\ _ => split end; try (vm_compute; reflexivity).
   - right. split; [reflexivity | discriminate].
-  - intros [H|[_ H]]; [discriminate | apply H; reflexivity].
+  - intros [H|[_ H]]; [vm_compute in H; discriminate | apply H; reflexivity].
 Qed.
